@@ -661,15 +661,9 @@ where
                         }
                     }
                     used_prio_indices.push(bin_op_idx);
-                } else if num_idx > 0 && num_idx < priorities.len() - 1 {
-                    if already_declined[num_idx + 1]
-                        && priorities[num_idx + 1] > priorities[num_idx]
-                    {
-                        already_declined[num_idx] = true;
-                    }
-                    if already_declined[num_idx] && priorities[num_idx] > priorities[num_idx + 1] {
-                        already_declined[num_idx + 1] = true;
-                    }
+                } else {
+                    already_declined[num_idx] = true;
+                    already_declined[num_idx + 1] = true;
                 }
             } else {
                 already_declined[num_idx] = true;
